@@ -85,15 +85,21 @@ class WMSGetMap(Harness):
             nx, ny = real_var('notch_x'), real_var('notch_y')
             assume(AND(nx > c[0], nx < c[2], ny > c[1], ny < c[3]))
             return dict(qx0=qx0, qy0=qy0, cov=c, notch=[nx, ny])
+        if cfg.get('sym_res'):
+            # stretched requests: the two axis resolutions are independent solver variables
+            rx, ry = real_var('res_x'), real_var('res_y')
+            assume(AND(rx >= 0.01, rx <= 10000, ry >= 0.01, ry <= 10000))
+            return dict(qx0=qx0, qy0=qy0, cov=c, axis_res=[rx, ry])
         return dict(qx0=qx0, qy0=qy0, cov=c)
 
     @classmethod
-    def prop(cls, ctx, cfg, qx0, qy0, cov, notch=None):
+    def prop(cls, ctx, cfg, qx0, qy0, cov, notch=None, axis_res=None):
         from mapproxy.srs import SRS, SupportedSRS
         w, g, ly, covm = ctx['w'], ctx['g'], ctx['ly'], ctx['cov']
         W, H = cfg['size']
         res = cfg['res']
-        qbbox = (qx0, qy0, qx0 + W * res, qy0 + H * res)
+        res_x, res_y = axis_res if axis_res else (res, res)
+        qbbox = (qx0, qy0, qx0 + W * res_x, qy0 + H * res_y)
         qsrs = SRS(cfg['query_srs'])
         ev = []
         sup = [SRS(c) for c in SRS_SETS[cfg['srs_set']]]
@@ -118,11 +124,14 @@ class WMSGetMap(Harness):
         src.opacity = None
         query = ly.MapQuery(qbbox, (W, H), qsrs, cfg.get('query_format', 'image/png'), dimensions={'time': 't', 'elevation': '5'})
         inter = OR(*[AND(r[0] < qbbox[2], r[2] > qbbox[0], r[1] < qbbox[3], r[3] > qbbox[1]) for r in rects]) if cfg['coverage'] else True
+        # "the resolution of the request": both axis resolutions (they differ for stretched requests); the source is only
+        # contacted when neither of them is excluded by the configured range
         in_range = True
+        tol = 1e-9 * (res_x + res_y)
         if cfg.get('min_res'):
-            in_range = AND(in_range, res < cfg['min_res'] + 1e-6)
+            in_range = AND(in_range, res_x < cfg['min_res'] + 1e-6 + tol, res_y < cfg['min_res'] + 1e-6 + tol)
         if cfg.get('max_res'):
-            in_range = AND(in_range, res >= cfg['max_res'])
+            in_range = AND(in_range, res_x >= cfg['max_res'] - tol, res_y >= cfg['max_res'] - tol)
         try:
             out = src.get_map(query)
         except ly.BlankImage:
@@ -385,6 +394,9 @@ def obligations(tier, seed):
         dict(srs_set='utm', query_srs='EPSG:25832', coverage=True, size=(300, 200), res=10.0, formats=['image/jpeg'], query_format='image/png'),
     ]
     extra.append(dict(srs_set='utm', query_srs='EPSG:25832', coverage='L', size=(256, 256), res=10.0))
+    extra.append(dict(srs_set='utm', query_srs='EPSG:25832', coverage=False, size=(200, 50), res='any-x-any', sym_res=True, min_res=8.0))
+    extra.append(dict(srs_set='utm', query_srs='EPSG:25832', coverage=False, size=(200, 50), res='any-x-any', sym_res=True, max_res=20.0))
+    extra.append(dict(srs_set='none', query_srs='EPSG:25832', coverage=False, size=(64, 300), res='any-x-any', sym_res=True, min_res=100.0, max_res=5.0))
     if tier == 'thorough':
         extra.append(dict(srs_set='none', query_srs='EPSG:25832', coverage='L', size=(600, 17), res=2.5))
         extra.append(dict(srs_set='merc_alias', query_srs='EPSG:3857', coverage='L', size=(256, 256), res=10.0, max_res=20.0))
